@@ -9,6 +9,7 @@ import io
 import logging
 import os
 import sys
+import time
 
 from mc import boot
 from mc.kernel import CaseTimeout, time_limit
@@ -291,14 +292,55 @@ for _b in (1, 2, 3, 4, 5, 6, 7):
             atom("size_if_else[b=%d,e=%d]" % (_b, _e),
                  "def g(c):\n    if not c:\n" + _notes("c", _b, 8) + "    else:\n" + _notes("-c", _e, 8) + "    return 0\na = (g(0), g(3))\n", "a", ["size"])
 
+# ---- evaluation order and snapshots (added after the seeded changes C02-merge-chained-comps-if-order and
+# C01-inline-math-comprehension-mutated-dependency): a filter that guards a partial operation in a later filter or
+# element, with effects visible through note(); a collection computed from a container that is then mutated in
+# place before the single use of the collection
+atom("guarded_chained_comps", "zs = [0, 1, 2, 5]\nr = [20 // w for w in [w for w in zs if w != 0] if 20 // w > 3]\n"
+     "r2 = {d[k] for k in {k for k in (1, 3, 9) if k in d} if d[k] > 1}\n", "r, sorted(r2)", ["alone"])
+atom("guarded_chained_comps_effect", "r = [w for w in [w for w in xs if note(w) > 1] if note(-w) < -2]\n"
+     "r2 = list(w for w in (w for w in xs if w != 2) if note(10 // (w - 2)))\n", "r, r2", ["alone"])
+atom("guarded_two_ifs", "zs = [0, 1, 2, 5]\nr = [20 // w for w in zs if w != 0 if 20 // w > 3]\nr2 = [w for w in zs if w and 20 // w > 3]\n"
+     "r3 = []\nfor w in zs:\n    if w != 0:\n        if 20 // w > 3:\n            r3.append(w)\n", "r, r2, r3", ["alone"])
+for _mut, _stmt in (("clear", "queue.clear()"), ("append", "queue.append('ghij')"), ("setitem", "queue[0] = ''"), ("delitem", "del queue[0]"),
+                    ("call", "ident(queue).pop()"), ("augassign", "queue += ['xyz']"), ("rebind", "queue = []"), ("none", "pass")):
+    atom("snapshot_then_mutate[%s]" % _mut, "queue = ['ab', 'cde', 'f']\nsizes = [len(item) for item in queue]\n%s\na = (sum(sizes), len(queue))\n"
+         "queue = ['ab', 'cde']\nlong = sorted(queue)\n%s\nb = (len(long), len(queue))\n" % (_stmt, _stmt), "a, b", ["alone"])
+# nested f-strings whose inner spelling is not the canonical one, inside statements that alter_code-based rules re-emit
+# (added after the seeded change C03-replace-nodes-validates-input)
+atom("nested_fstring_in_loop_tail_if", "rows = [(1, 2), (), (3,)]\nfor row in rows:\n    if row:\n        total = sum(row)\n"
+     "        note(f\"row: {', '.join(f'{c0*2:>4}' for c0 in row)}\")\n        note(f'{len(row)!r:>3}' f\"{row[0]:{'>'}{4}}\")\n        note(total)\n        note(2)\n        note(3)\n        note(4)\n", "", ["alone"])
+atom("nested_fstring_in_if_else_swap", "for row in [(1, 2), ()]:\n    if not row:\n        pass\n    else:\n        note(f\"row: {', '.join(f'{c0*2:>4}' for c0 in row)}\")\n        note(f'{len(row)!r:>3}')\n", "", ["alone"])
+atom("nested_fstring_in_with_candidate", "f3 = open(FIXTURE)\ntxt = f3.read()\nnote(f\"got: {', '.join(f'{c!r:>4}' for c in txt[:2])}\")\nf3.close()\n", "txt", ["alone"])
+atom("nested_fstring_in_loop_invariant", "r = []\nfor i in range(2):\n    label = f\"k={', '.join(f'{c:>2}' for c in 'ab')}\"\n    r.append(label + str(i))\n", "r", ["alone"])
+
+atom("twin_literals", "e0 = 12\nunit = 'ms'\nspec = 'd'\na = (f'{e0}ms', unit, f'{e0:d}', spec, f'{e0:>4}' '>4', f'''{e0}\nms''', 'ms', \"ms\", r'ms')\n", "a", ["alone"])
+
+# ---- shadowing family: an outer variable the naming rule renames x an inner function whose parameter of each kind has
+# the same name (added after the seeded change C01-rename-shadow-kwonly-param: only ordinary parameters were enumerated)
+for _kind, _head, _use, _call in (
+    ("param", "def clip_k(values, limitValue=2):", "limitValue", "clip_k([1, 2, 3], limitValue=1)"),
+    ("kwonly", "def clip_k(values, *, limitValue=2):", "limitValue", "clip_k([1, 2, 3], limitValue=1)"),
+    ("posonly", "def clip_k(values, limitValue=2, /):", "limitValue", "clip_k([1, 2, 3], 1)"),
+    ("vararg", "def clip_k(values, *limitValue):", "len(limitValue)", "clip_k([1, 2, 3], 1, 2)"),
+    ("starkwarg", "def clip_k(values, **limitValue):", "len(limitValue)", "clip_k([1, 2, 3], zz=1)"),
+):
+    atom("shadow_outer_by_%s" % _kind,
+         "limitValue = 3\n" + _head + "\n    return [w for w in values if w <= %s]\n" % _use
+         + "a = (clip_k([1, 2, 3, 4]), %s, limitValue)\n" % _call, "a", ["size"])
+
 CORE = [n for n, a in ATOMS.items() if "core" in a["tags"]]
 
-CONTEXTS = ("module", "function", "loop", "method")
+# "tail": the atom is the last thing in a block that is itself last in a function, so the line below is dedented twice
+# (context added after breakout_common_code_in_ifs was found to insert moved code into the middle of that line)
+CONTEXTS = ("module", "function", "loop", "method", "tail")
 
 
 def contexts_of(name):
-    if "size" in ATOMS[name]["tags"]:
-        return ("module", "function")
+    if "size" in ATOMS[name]["tags"] or "alone" in ATOMS[name]["tags"]:
+        return ("module", "function", "tail")
+    if "pandas" in ATOMS[name]["tags"]:
+        return ("module", "function", "loop", "method")
     return ("module", "loop") if "module_only" in ATOMS[name]["tags"] else CONTEXTS
 
 
@@ -316,7 +358,7 @@ def program_space(tier):
     if tier == "thorough":
         coreset = set(core)
         for a in ATOMS:
-            if a in coreset or "size" in ATOMS[a]["tags"]:
+            if a in coreset or "size" in ATOMS[a]["tags"] or "alone" in ATOMS[a]["tags"]:
                 continue  # size families are explored alone (their point is the threshold, not the interaction)
             for b in core:
                 for pair in ((a, b), (b, a)):
@@ -347,6 +389,12 @@ def build(names, ctx="module", trailing_newline=True):
         prog = PRELUDE + "def main_fn():\n" + ind(body, 4) + "    return 0\nmain_fn()\nprint(LOG)\n"
     elif ctx == "loop":
         prog = PRELUDE + "for rep in range(2):\n" + ind(body, 4) + "    note(rep)\nprint(LOG)\n"
+    elif ctx == "tail":
+        # the last atom's code ends the `if p:` block; its observables are printed one level further out
+        last = ATOMS[names[-1]]
+        head = "".join(ATOMS[n]["code"] + ("print(%s)\n" % ATOMS[n]["obs"] if ATOMS[n]["obs"] else "") for n in names[:-1])
+        prog = (PRELUDE + "def main_fn():\n    if p:\n" + ind(head + last["code"], 8)
+                + ("    print(%s)\n" % last["obs"] if last["obs"] else "") + "main_fn()\nprint(LOG)\n")
     elif ctx == "method":
         prog = PRELUDE + "class Ctx:\n    def run(self):\n" + ind(body, 8) + "        return self\nCtx().run()\nprint(LOG)\n"
     else:
@@ -395,6 +443,78 @@ def run_prog(src, limit=5.0):
         _ROOT.setLevel(logging.WARNING)
         sys.path[:] = old_path
     return (status, buf.getvalue())
+
+
+def isolated(fn, *args, cpu_limit=20, mem_limit=6 << 30):
+    """Run fn(*args) in a forked child under hard CPU / address-space limits and a wall-clock kill.
+    -> ("ok", picklable result) | ("killed", reason). For inputs on which a regression makes the tool spin inside
+    one C call (9 ** 9 ** 9 ** 9): a signal-based limit never fires there, and the worker would hang with it."""
+    import pickle
+    import resource
+    import select
+
+    r, w = os.pipe()
+    pid = os.fork()
+    if pid == 0:
+        os.close(r)
+        try:
+            resource.setrlimit(resource.RLIMIT_CPU, (cpu_limit, cpu_limit + 1))
+            resource.setrlimit(resource.RLIMIT_AS, (mem_limit, mem_limit))
+            payload = pickle.dumps(("ok", fn(*args)))
+        except BaseException as e:  # noqa: BLE001
+            payload = pickle.dumps(("ok", ("harness_exception", repr(e)[:200])))
+        try:
+            os.write(w, payload)
+        finally:
+            os._exit(0)
+    os.close(w)
+    deadline = time.time() + 3 * cpu_limit + 5
+    chunks = []
+    try:
+        while True:
+            left = deadline - time.time()
+            if left <= 0:
+                os.kill(pid, 9)
+                os.waitpid(pid, 0)
+                return ("killed", "no answer within %d s wall clock" % (3 * cpu_limit + 5))
+            ready, _, _ = select.select([r], [], [], min(left, 1.0))
+            if ready:
+                b = os.read(r, 1 << 20)
+                if not b:
+                    break
+                chunks.append(b)
+        os.waitpid(pid, 0)
+    finally:
+        os.close(r)
+    if not chunks:
+        return ("killed", "child died without an answer (CPU limit of %d s or memory limit hit)" % cpu_limit)
+    return pickle.loads(b"".join(chunks))
+
+
+# constant expressions whose value is astronomically large or takes astronomically long to compute (family added after
+# a sub-agent reported `if 9 ** 9 ** 9 ** 9:` hanging the formatter); the tool must treat them as unknown
+HUGE_EXPRS = [
+    "9 ** 9 ** 9 ** 9", "-9 ** 9 ** 9 ** 9", "2 ** (3 ** 100) > 5", "1 << (1 << 40)", "'a' * 10 ** 10", "[0] * 10 ** 9",
+    "[0] * 10 ** 3 * 10 ** 3 * 10 ** 3 * 10 ** 3", "10 ** 30 * 10 ** 30 * 10 ** 30", "sum(range(10 ** 10))", "list(range(10 ** 10))",
+    "0.5 in range(10 ** 11)", "0.5 not in range(10 ** 30)", "max(range(10 ** 9))", "sorted(range(10 ** 8))", "any(range(10 ** 10))",
+    "all(range(1, 10 ** 10))", "tuple(range(10 ** 10))", "len(range(10 ** 10)) > 2", "pow(9, 9 ** 9 ** 9)", "'a'.ljust(10 ** 10)",
+    "bytes(10 ** 10)", "str(10 ** 10 ** 10)", "sum(i * i for i in range(10 ** 10))", "sum([1, 2] * 10 ** 9)",
+    "[i for i in range(10 ** 10) if i < 3]", "9 ** 9 ** 9 ** 9 and 1", "not 9 ** 9 ** 9 ** 9", "9 ** 9 ** 9 ** 9 == 9 ** 9 ** 9 ** 9",
+]
+
+
+def huge_program(e, pos):
+    """The expression sits where the rules evaluate constants; the program text itself is never run."""
+    return {
+        "if": "def f(x):\n    if %s:\n        print('T')\n    else:\n        print('F')\n" % e,
+        "while": "def f(x):\n    while %s:\n        print('T')\n        break\n" % e,
+        "value": "def f(x):\n    y = %s\n    return y\n" % e,
+        "stmt": "def f(x):\n    %s\n    assert %s\n    return x\n" % (e, e),
+        "andor": "def f(x):\n    return (%s) and x, (%s) or x, 1 if %s else 2\n" % (e, e, e),
+    }[pos]
+
+
+HUGE_POSITIONS = ("if", "while", "value", "stmt", "andor")
 
 
 def compare(orig_outcome, new_src):
